@@ -90,3 +90,9 @@ def f12c_bds(v, f):
 def f26_canonical_g(v, f):
     """marginalised canonical form has the right K and h; its constant g is off by exactly 0.5*(h_j'K_jj h_j - h_j'K_jj^-1 h_j)"""
     return bool((v.get("detail") or {}).get("f26_model_match"))
+
+
+@predicate
+def f19_min_adjustment_descendant(v, f):
+    """get_minimal_adjustment_set returns a set that blocks the non-causal paths but contains a descendant of X (a mediator)"""
+    return v.get("expected") == "contains a descendant of X"
